@@ -43,6 +43,14 @@ func c20Run(c c20Case) Verdict {
 		plan.Result = harness.Decision{Kind: "smtp", Code: 550, Enh: [3]int{5, 7, 1}, Msg: "refused by policy"}
 	}
 	script := harness.Script{LMTPSession: c.LMTP && c.PerRcpt, DefaultData: &plan, GateStart: c.Gate == "start"}
+	switch c.Gate {
+	case "newsession":
+		script.GateCalls = []string{"NewSession"}
+	case "mail":
+		script.GateCalls = []string{"Mail"}
+	case "rcpt":
+		script.GateCalls = []string{"Rcpt"}
+	}
 	r := harness.NewRig(harness.Config{LMTP: c.LMTP}, script)
 	wires := make([]*harness.Wire, c.NConns)
 	for i := range wires {
@@ -207,6 +215,12 @@ func c20Run(c c20Case) Verdict {
 		return failf("goroutine-left", "goroutine left behind:\n%s", r.Leftover[0])
 	}
 	evs := r.B.Events()
+	if bad := sessionInvariants(evs, nil); bad != nil && bad.Tag != "callback-after-logout" {
+		// every session exactly one Logout, every callback finished (a callback
+		// that was already past its session lookup when Close landed is outside
+		// this property's claims; C08 judges ordering without concurrency)
+		return *bad
+	}
 	created, logouts := 0, 0
 	for _, e := range evs {
 		if e.CB == "NewSession" && !e.Begin && e.Sess >= 0 {
@@ -251,14 +265,20 @@ func c20Run(c c20Case) Verdict {
 
 func c20Gen(t *rapid.T) c20Case {
 	c := c20Case{LMTP: rapid.Bool().Draw(t, "lmtp"), PerRcpt: rapid.Bool().Draw(t, "perrcpt"), NConns: rapid.IntRange(1, 3).Draw(t, "nconns"),
-		Gate: rapid.SampledFrom([]string{"", "pre", "post", "post", "start"}).Draw(t, "gate")}
+		Gate: rapid.SampledFrom([]string{"", "pre", "post", "post", "start", "newsession", "mail", "rcpt"}).Draw(t, "gate")}
 	c.Early = rapid.IntRange(0, 3).Draw(t, "early") == 0
 	// per-connection programs
 	progs := make([][]string, c.NConns)
 	for i := range progs {
 		p := []string{"greet"}
+		if c.Gate == "newsession" {
+			p = append(p, "release")
+		}
 		for j, n := 0, rapid.IntRange(1, 3).Draw(t, "ntxn"); j < n; j++ {
 			p = append(p, "envelope")
+			if c.Gate == "mail" || c.Gate == "rcpt" {
+				p = append(p, "release", "release", "release")
+			}
 			switch rapid.IntRange(0, 4).Draw(t, "kind") {
 			case 0:
 				p = append(p, "data")
